@@ -50,9 +50,9 @@
 use crate::common::*;
 use crate::m_line::{pts_digest, STARTS};
 use embedded_graphics::{
-    pixelcolor::BinaryColor,
+    pixelcolor::{BinaryColor, Rgb565},
     prelude::*,
-    primitives::{Line, Polyline, PrimitiveStyle},
+    primitives::{Line, Polyline, PrimitiveStyle, PrimitiveStyleBuilder, Rectangle, StrokeAlignment, Triangle},
 };
 use std::collections::HashSet;
 
@@ -222,6 +222,7 @@ impl Module for M {
                 fmt_rect(&bb)
             }
             "thick.polyline" => exec_polyline(&mut t, op, ctx),
+            "thick.triangle" => exec_triangle(&mut t, op, ctx),
             _ => panic!("unknown op {}", op),
         }
     }
@@ -239,6 +240,12 @@ impl Module for M {
 //                `fs:<digest of the fill_solid rectangles as the point list tl,(w,h),tl,(w,h),..>`
 //          px:   points digest of `pixels()` in emission order (format of `m_line::pts_digest`)
 //
+//   thick.triangle dx dy x1 y1 x2 y2 x3 y3 w align fill stroke
+//       `Triangle::new(v1, v2, v3).translate((dx,dy)).into_styled(style)`, style = stroke width w, alignment
+//       (0 = Inside, 1 = Center, 2 = Outside), fill / stroke colour (`-` or the Rgb565 raw value)
+//       -> `bb=<bounding_box()> draw=<fill_solid calls of draw() on R2 as the point list tl,(w,colour),..; `-` = no call>
+//           px=<pixels() in emission order as the point list p,(colour,0),..>` (digests as above)
+//
 // Oracles (property texts as predicates on the real results; the logic of m_styled.rs):
 //   C02:outside-bbox:thick-polyline      every pixel drawn (draw() and pixels()) lies inside bounding_box()
 //   C01:pixels-vs-draw:thick-polyline    pixels() and draw() paint the same set
@@ -252,6 +259,12 @@ impl Module for M {
 //                                        exact rounding tie whose sign differs before and after the move (see
 //                                        `joins_port`); anything else is `draw-not-shifted` / `bbox-not-shifted`.
 //   C19:polyline-width1                  width 1: the picture is the `points()` set and pixels() = points()
+//   C02:outside-bbox:thick-triangle, C02:transparent-draws:thick-triangle, C01:pixels-vs-draw:thick-triangle,
+//   C07:draw-not-shifted:thick-triangle, C07:bbox-not-shifted:thick-triangle, C07:translate-mut-differs:thick-triangle
+//                                        the same predicates for the triangle moved by (dx,dy) against the unmoved one
+//   C19:tri-outline                      width 1 with a stroke colour: the stroke-coloured pixels are the union of the
+//                                        three edge lines' `Line::points()`, each edge in one of its two orientations
+//                                        (the predicate of the `tri` module)
 // =============================================================================================
 
 const LAT_X: [i32; 5] = [-4, -1, 0, 2, 6];
@@ -345,6 +358,7 @@ fn generate_joins(pid: &str, tier: Tier, rng: &mut Rng, emit: &mut dyn FnMut(Str
         k += 1;
         emit(poly_op(offset_for(pid, k), &vs, w));
     }
+    generate_triangles(pid, tier, rng, emit);
     // seeded random polylines within +-60
     let nrand = if quick { 400 } else { 20_000 };
     for _ in 0..nrand {
@@ -382,7 +396,7 @@ fn shift_map(m: &PMap, d: Point) -> PMap {
 }
 
 /// picture (on an unbounded draw_iter-only target) and bounding box of a stroked polyline
-fn poly_picture(vs: &[Point], tr: Point, w: u32) -> (PMap, embedded_graphics::primitives::Rectangle) {
+fn poly_picture(vs: &[Point], tr: Point, w: u32) -> (PMap, Rectangle) {
     let styled = Polyline::new(vs).translate(tr).into_styled(PrimitiveStyle::with_stroke(BinaryColor::On, w));
     let mut r1 = R1::<BinaryColor>::unbounded();
     styled.draw(&mut r1).unwrap();
@@ -426,9 +440,9 @@ fn exec_polyline(t: &mut Toks, op: &str, ctx: &mut Ctx) -> String {
     ctx.expect(mt == shift_map(&m0, tr) && mt == r2.rec.map, "C07:translate-field:thick-polyline", || {
         format!("{} px vs {} px, {} differing entries", mt.len(), m0.len(), map_diff(&mt, &shift_map(&m0, tr)))
     });
-    let bb_shift_ok = |b0: &embedded_graphics::primitives::Rectangle, bd: &embedded_graphics::primitives::Rectangle| {
+    let bb_shift_ok = |b0: &Rectangle, bd: &Rectangle| {
         if !b0.is_zero_sized() {
-            *bd == embedded_graphics::primitives::Rectangle::new(b0.top_left + tr, b0.size)
+            *bd == Rectangle::new(b0.top_left + tr, b0.size)
         } else {
             bd.is_zero_sized()
         }
@@ -483,4 +497,193 @@ mod joins_port {
     pub fn polyline_has_flipping_tie(_vs: &[Point], _w: u32, _d: Point) -> bool {
         false
     }
+}
+
+// ---------------------------------------------------------------------------------------------
+// stroked triangles
+// ---------------------------------------------------------------------------------------------
+fn tri_op(d: (i32, i32), v: &[(i32, i32); 3], w: u32, align: u32, fill: Option<u32>, stroke: Option<u32>) -> String {
+    let c = |o: Option<u32>| o.map(|n| n.to_string()).unwrap_or_else(|| "-".into());
+    format!(
+        "thick.triangle {} {} {} {} {} {} {} {} {} {} {} {}",
+        d.0, d.1, v[0].0, v[0].1, v[1].0, v[1].1, v[2].0, v[2].1, w, align, c(fill), c(stroke)
+    )
+}
+
+const TRI_STYLES: [(Option<u32>, Option<u32>); 3] = [(None, Some(1)), (Some(2), Some(1)), (Some(2), None)];
+
+fn generate_triangles(pid: &str, tier: Tier, rng: &mut Rng, emit: &mut dyn FnMut(String)) {
+    let quick = tier == Tier::Quick;
+    let widths: Vec<u32> = match (pid, quick) {
+        ("C19", _) => vec![1],
+        (_, true) => vec![1, 2, 3, 4],
+        (_, false) => vec![0, 1, 2, 3, 4, 5, 7],
+    };
+    let (lx, ly): (Vec<i32>, Vec<i32>) = if quick { (vec![-3, -1, 0, 4], vec![-4, 0, 1, 3]) } else { (vec![-5, -3, -1, 0, 4, 7], vec![-6, -4, 0, 1, 3, 8]) };
+    let mut lat: Vec<(i32, i32)> = Vec::new();
+    for &y in &ly {
+        for &x in &lx {
+            lat.push((x, y));
+        }
+    }
+    let mut k = 0usize;
+    for &a in &lat {
+        for &b in &lat {
+            for &c in &lat {
+                for &w in &widths {
+                    for align in 0..3u32 {
+                        k += 1;
+                        let (fill, stroke) = if pid == "C19" { TRI_STYLES[k % 2] } else { TRI_STYLES[k % 3] };
+                        emit(tri_op(offset_for(pid, k / 3), &[a, b, c], w, align, fill, stroke));
+                    }
+                }
+            }
+        }
+    }
+    let nrand = if quick { 400 } else { 20_000 };
+    for _ in 0..nrand {
+        let mut p = || (rng.range(-60, 60) as i32, rng.range(-60, 60) as i32);
+        let v = [p(), p(), p()];
+        let w = if pid == "C19" { 1 } else { rng.range(0, 12) as u32 };
+        let align = rng.below(3) as u32;
+        let (fill, stroke) = *rng.pick(&TRI_STYLES);
+        let d = (rng.range(-80, 80) as i32, rng.range(-80, 80) as i32);
+        emit(tri_op(d, &v, w, align, fill, stroke));
+    }
+}
+
+fn tri_style(w: u32, align: u32, fill: Option<u32>, stroke: Option<u32>) -> PrimitiveStyle<Rgb565> {
+    let mut b = PrimitiveStyleBuilder::new().stroke_width(w).stroke_alignment(match align {
+        0 => StrokeAlignment::Inside,
+        1 => StrokeAlignment::Center,
+        _ => StrokeAlignment::Outside,
+    });
+    if let Some(c) = fill {
+        b = b.fill_color(Rgb565::from_num(c));
+    }
+    if let Some(c) = stroke {
+        b = b.stroke_color(Rgb565::from_num(c));
+    }
+    b.build()
+}
+
+fn exec_triangle(t: &mut Toks, op: &str, ctx: &mut Ctx) -> String {
+    let d = t.point();
+    let v = [t.point(), t.point(), t.point()];
+    let w = t.u32();
+    let align = t.u32();
+    let col = |s: &str| if s == "-" { None } else { Some(s.parse::<u32>().expect("bad colour")) };
+    let fill = col(t.str());
+    let stroke = col(t.str());
+    let style = tri_style(w, align, fill, stroke);
+    let tri0 = Triangle::new(v[0], v[1], v[2]);
+    let tri = tri0.translate(d);
+    let styled = tri.into_styled(style);
+    let bb = styled.bounding_box();
+    let mut r2 = R2::<Rgb565>::unbounded();
+    styled.draw(&mut r2).unwrap();
+    let px: Vec<(Point, u32)> = styled.pixels().map(|Pixel(p, c)| (p, c.num())).collect();
+    let m = &r2.rec.map;
+    let area2 = (v[1].x - v[0].x) as i64 * (v[2].y - v[0].y) as i64 - (v[1].y - v[0].y) as i64 * (v[2].x - v[0].x) as i64;
+    ctx.count(&format!("triangle:w={}", w.min(12)));
+    ctx.count(&format!("triangle:align={}", align));
+    ctx.count(match (fill.is_some(), stroke.is_some()) {
+        (true, true) => "triangle:fill+stroke",
+        (true, false) => "triangle:fill-only",
+        (false, true) => "triangle:stroke-only",
+        _ => "triangle:no-colour",
+    });
+    ctx.count(if area2 == 0 { "triangle:zero-area" } else if area2 > 0 { "triangle:cw" } else { "triangle:ccw" });
+    if fill.is_some() && stroke.is_some() && w >= 2 && !m.is_empty() && !m.values().any(|c| Some(*c) == fill) {
+        ctx.count("triangle:stroke-covers-fill");
+    }
+    if !m.is_empty() && (ctx.pid != "C07" || d != Point::zero()) {
+        ctx.nontrivial(op);
+    }
+    let transparent = fill.is_none() && (stroke.is_none() || w == 0);
+
+    // C02
+    let out: Vec<_> = m.keys().filter(|(y, x)| !bb.contains(Point::new(*x, *y))).collect();
+    ctx.expect(out.is_empty(), "C02:outside-bbox:thick-triangle", || {
+        format!("{} of {} px outside bounding_box {} e.g. ({},{})", out.len(), m.len(), fmt_rect(&bb), out[0].1, out[0].0)
+    });
+    if transparent {
+        ctx.expect(m.is_empty() && px.is_empty(), "C02:transparent-draws:thick-triangle", || format!("{} px drawn with a transparent style", m.len()));
+    }
+    let mut mp = PMap::new();
+    for (p, c) in &px {
+        mp.insert((p.y, p.x), *c);
+    }
+    ctx.expect(mp == *m, "C01:pixels-vs-draw:thick-triangle", || format!("draw() {} px, pixels() {} px, {} differing entries", m.len(), mp.len(), map_diff(m, &mp)));
+
+    // C07: the moved triangle against the unmoved one
+    let s0 = tri0.into_styled(style);
+    let mut r0 = R1::<Rgb565>::unbounded();
+    s0.draw(&mut r0).unwrap();
+    let bb0 = s0.bounding_box();
+    let want = shift_map(&r0.rec.map, d);
+    let mut r1 = R1::<Rgb565>::unbounded();
+    styled.draw(&mut r1).unwrap();
+    ctx.expect(r1.rec.map == want && r1.rec.map == *m, "C07:draw-not-shifted:thick-triangle", || {
+        format!("{} px vs {} px, {} differing entries", r1.rec.map.len(), want.len(), map_diff(&r1.rec.map, &want))
+    });
+    let box_ok = if !bb0.is_zero_sized() { bb == Rectangle::new(bb0.top_left + d, bb0.size) } else { bb.is_zero_sized() };
+    ctx.expect(box_ok, "C07:bbox-not-shifted:thick-triangle", || format!("{} -> {}", fmt_rect(&bb0), fmt_rect(&bb)));
+    {
+        let mut sm = s0;
+        sm.translate_mut(d);
+        let mut rm = R1::<Rgb565>::unbounded();
+        sm.draw(&mut rm).unwrap();
+        ctx.expect(rm.rec.map == r1.rec.map && sm.bounding_box() == bb, "C07:translate-mut-differs:thick-triangle", || "translate_mut and translate differ".into());
+    }
+
+    // C19: one-pixel outline = the three edge lines
+    if w == 1 && stroke.is_some() && stroke != fill {
+        let set: HashSet<(i32, i32)> = m.iter().filter(|(_, c)| Some(**c) == stroke).map(|((y, x), _)| (*x, *y)).collect();
+        let vv = tri.vertices;
+        let line = |a: Point, b: Point| -> Vec<Point> { Line::new(a, b).points().collect() };
+        let edges = [(vv[0], vv[1]), (vv[1], vv[2]), (vv[2], vv[0])];
+        let mut matched = false;
+        for mask in 0..8u32 {
+            let mut u: HashSet<(i32, i32)> = HashSet::new();
+            for (k, (a, b)) in edges.iter().enumerate() {
+                let l = if mask & (1 << k) == 0 { line(*a, *b) } else { line(*b, *a) };
+                u.extend(l.iter().map(|p| (p.x, p.y)));
+            }
+            if u == set {
+                matched = true;
+                break;
+            }
+        }
+        ctx.expect(matched, "C19:tri-outline", || {
+            format!("{:?} align {}: the {} stroke pixels are not the union of the three edge lines in any orientation", vv, align, set.len())
+        });
+    }
+
+    let draw = {
+        let mut pts = Vec::new();
+        let mut ok = true;
+        for c in &r2.rec.log {
+            match c {
+                Call::FillSolid(r, c) if r.size.height == 1 => {
+                    pts.push(r.top_left);
+                    pts.push(Point::new(r.size.width as i32, *c as i32));
+                }
+                _ => ok = false,
+            }
+        }
+        if !ok {
+            "mixed".to_string()
+        } else if pts.is_empty() {
+            "-".to_string()
+        } else {
+            format!("fs:{}", pts_digest(&pts))
+        }
+    };
+    let mut pp = Vec::with_capacity(px.len() * 2);
+    for (p, c) in &px {
+        pp.push(*p);
+        pp.push(Point::new(*c as i32, 0));
+    }
+    format!("bb={} draw={} px={}", fmt_rect(&bb), draw, pts_digest(&pp))
 }
